@@ -363,3 +363,44 @@ if __name__ == "__main__":
     f = extract_core()
     print(json.dumps(f.meta, indent=1))
     print(len(f.bodies), "bodies")
+
+
+LANG_CFGS = ("", "de", "en", "es", "fr", "pt", "ru")
+
+
+def extract_wasm(repo=None, langs=LANG_CFGS):
+    """Facts for the WASM bridge (rust/wasm/src/lib.rs) compiled against a no-op wasm_bindgen shim, once per `lang` cfg.
+    Returns {lang: Facts}."""
+    repo = repo or REPO
+    wasm_src = os.path.join(repo, "rust", "wasm", "src", "lib.rs")
+    core = os.path.join(repo, "rust", "core")
+    if not os.path.exists(wasm_src):
+        raise ExtractionError("no rust/wasm/src/lib.rs under " + repo)
+    build_driver()
+    h = source_hash([os.path.join(core, "src"), wasm_src])
+    harness = os.path.join(WORK, "wasm-harness-" + hashlib.sha256(repo.encode()).hexdigest()[:8])
+    os.makedirs(harness, exist_ok=True)
+    with open(os.path.join(harness, "Cargo.toml"), "w") as fh:
+        fh.write('[package]\nname = "lucid-suggest-wasm"\nversion = "0.0.0"\nedition = "2018"\n\n[lib]\npath = "%s"\n\n'
+                 '[dependencies]\nwasm-bindgen = { path = "%s" }\nlucid-suggest-core = { path = "%s" }\n\n[workspace]\n'
+                 % (wasm_src, os.path.join(VERIF, "shim", "wasm-bindgen"), core))
+    lock = os.path.join(core, "Cargo.lock")
+    if os.path.exists(lock) and not os.path.exists(os.path.join(harness, "Cargo.lock")):
+        shutil.copy(lock, os.path.join(harness, "Cargo.lock"))
+    out = {}
+    with _Lock("extract-wasm"):
+        for lang in langs:
+            out_dir = os.path.join(WORK, "facts-wasm", h)
+            suffix = "-" + (lang or "none")
+            fact = os.path.join(out_dir, "lucid_suggest_wasm%s.json" % suffix)
+            if not (os.environ.get("LSV_CACHE") == "1" and os.path.exists(fact)):
+                if os.path.exists(fact):
+                    os.remove(fact)
+                flags = ('--cfg lang="%s" --check-cfg cfg(lang,values(any()))' % lang) if lang else "--check-cfg cfg(lang,values(any()))"
+                run_driver(harness, ["lucid_suggest_wasm"], out_dir, os.path.join(WORK, "tgt-wasm"),
+                           extra_rustflags=flags, suffix=suffix, members=["lucid_suggest_wasm"])
+                if not os.path.exists(fact):
+                    raise ExtractionError("driver did not write " + fact)
+            with open(fact) as fh:
+                out[lang] = Facts(json.load(fh), {"repo": repo, "fact_file": fact, "lang": lang})
+    return out
